@@ -37,6 +37,13 @@ CLAIMS["C16"] = (
     "DESIGN.md §2 C16",
 )
 
+CLAIMS["C07"] = (
+    "scaling-law abstract interpretation (exact monomial domain with signal/deterministic/random kinds and variance tracking) + closed-form match of the Laplace sampler",
+    "The noise-adding paths (_apply_noise, AWGN, Laplacian in its three parameterisations, nonlinear-with-noise, the noise stage of flat fading, add_noise_for_snr) are interpreted over an exact monomial domain for real and complex inputs; the derived law must be output = 1*x + zero-mean noise with total variance P (complex: Var re + Var im), resp. mean|x|^2/10^(snr_db/10) through snr_to_noise_power/snr_db_to_linear analysed in context; caller-supplied noise must be added verbatim; every dB conversion of utils/snr.py, the SNR metric and the benchmark helper must be 10*log10(signal power/noise power). The algebra is exact and parametric, so it holds for all powers, SNRs and shapes. Distribution shape, independence and finite-sample statistics are not decided.",
+    "Trusted: scaling.py transfer functions (randn has unit variance; the unit Laplace sampler has variance 2, its form is matched separately; +eps with literal eps<=1e-6 is the identity), torch.mean/sum/abs semantics.",
+    "DESIGN.md §2 C07",
+)
+
 NOT_APPLICABLE = {
     "C09": "conjunction at run time of C02/C05/C06/C10/C11/C15 over component pairings and adversarial channels; its structural preconditions (stage order, LLR polarity, label agreement, block framing) are decided under C17, C15, C05, C20 - no additional clause is visible in the shape of the code (DESIGN.md §2 C09)",
 }
